@@ -408,6 +408,9 @@ func (g *Gen) useFilter(op *Op, gen func() *FSpec, ok func(*FSpec) bool) bool {
 		if len(slots) > 0 {
 			sort.Ints(slots)
 			op.Slot = ip(Pick(g.R, slots))
+			if op.K == "BatchRemoveEntities" && g.R.Chance(0.25) {
+				op.Wrap = entP(g.pickTarget(ecs.Entity{}))
+			}
 			return true
 		}
 	}
